@@ -16,7 +16,7 @@ scratch copy, points RVMON_REPO at it, runs the quick check of the property and 
 (or exit 0 for the starred ones), then deletes the copy.
 """
 M = [
- ("m01","C01","robotools/worklists/base.py","source.remove(source.wells[0, source_column], volume * n_dst, label=label)","source.remove(source.wells[0, source_column], volume * (n_dst - 1), label=label)"),
+ ("m01","C01","robotools/worklists/base.py","source.remove(source.wells[0, source_column], float(volume) * n_dst, label=label)","source.remove(source.wells[0, source_column], float(volume) * (n_dst - 1), label=label)"),
  ("m02","C01","robotools/worklists/base.py","src_composition = source.get_well_composition(source.wells[0, source_column])","src_composition = source.get_well_composition(source.wells[0, 0])"),
  ("m03","C01","robotools/fluenttools/utils.py","        return 1 + c\n","        return 1 + c + 0 * 1 if labware.n_columns < 2 else 1 + (labware.n_columns - 1 - c)\n"),
  ("m04","C01","robotools/evotools/worklist.py","compositions=[source.get_well_composition(s)],","compositions=[destination.get_well_composition(d) or source.get_well_composition(s)],"),
@@ -27,7 +27,7 @@ M = [
  ("m09","C04","robotools/liquidhandling/labware.py","                f\"{vrow}{column:02d}\": (0, c)\n","                f\"{vrow}{column:02d}\": (0, c if vr < 8 else 0)\n"),
  ("m10","C05","robotools/liquidhandling/composition.py","    new_composition = {k: v / (volume_A + volume_B) for k, v in volumetric_fractions.items()}","    new_composition = {k: round(v / (volume_A + volume_B), 6) for k, v in volumetric_fractions.items()}"),
  ("m11","C05","robotools/liquidhandling/composition.py","        default_name = f\"{name}.{w}\" if is_multiwell else name","        default_name = f\"{name}.{w[0]}\" if is_multiwell else name"),
- ("m12","C06","robotools/worklists/utils.py","    if volume < max_volume:\n        return [volume]","    if volume <= max_volume + 1:\n        return [volume]"),
+ ("m12","C06","robotools/worklists/utils.py","    if volume < max_volume or math.isinf(volume):","    if volume <= max_volume + 1 or math.isinf(volume):"),
  ("m13","C06","robotools/worklists/utils.py","    isteps = math.ceil(volume / max_volume)","    isteps = math.floor(volume / max_volume) + 1"),
  ("m14","C06","robotools/worklists/base.py","            multi_disp = math.floor(self.max_volume / volume)","            multi_disp = math.ceil(self.max_volume / volume)"),
  ("m15","C07","robotools/worklists/utils.py","            list(numpy.array(dsts)[order]),\n","            list(numpy.array(dsts)[numpy.argsort(dsts)]),\n"),
@@ -40,7 +40,7 @@ M = [
  ("m22","C09","robotools/worklists/utils.py","    volume_str = f\"{numpy.round(volume, decimals=2):.2f}\"","    volume_str = f\"{numpy.floor(volume * 100) / 100:.2f}\""),
  ("m23","C10","robotools/worklists/utils.py","        tip = sum(set(tips))","        tip = sum(tips) if len(tips) != 2 else sum(set(tips))"),
  ("m24","C11","robotools/liquidhandling/labware.py","        self._history.append(self.volumes)\n        self._labels.append(label)","        self._history.append(self._volumes)\n        self._labels.append(label)"),
- ("m25","C11","robotools/fluenttools/worklist.py","            source.condense_log(nsteps * 2, label=label)","            source.condense_log(nsteps * 2 + (1 if nsteps > 3 else 0), label=label)"),
+ ("m25","C11","robotools/fluenttools/worklist.py","            source.condense_log(nsteps * 2, label=label, verbatim=True)","            source.condense_log(nsteps * 2 + (1 if nsteps > 3 else 0), label=label, verbatim=True)"),
  ("m26","C11","robotools/liquidhandling/labware.py","        return self._volumes.copy()","        return self._volumes"),
  ("m27","C12","robotools/evotools/commands.py","            if bit_counter > 6:","            if bit_counter > 6 and not (rows == 5 and x == cols - 1 and y == rows - 1):"),
  ("m28","C13","robotools/evotools/commands.py","    labware_position = (grid, site - 1)\n\n    if volume is None:","    labware_position = (grid, site - 1 if site > 1 else site)\n\n    if volume is None:"),
